@@ -386,6 +386,27 @@ def run(ctx) -> None:
            "retries start from workflowAttributes.repeatRetries, default 3" if ok_src and ok_def else
            "initial retries are not 'workflowAttributes.repeatRetries or 3'", construct="max_retries = repeatRetries or 3")
 
+    # a launch that fails - with ANY exception - still reaches the decision block (that is where the retries are counted and the engine
+    # stops): the call of the task generator sits in a try whose handlers catch Exception and do not re-raise.  Otherwise the monitor
+    # wraps the error, sleeps and calls the action again, for ever
+    from vlib import escape as _esc
+    for g in gens:
+        call_ast = [c for c in own_calls(g.ast) if call_name(c) == "self.taskGenerator"][0]
+        tries = [a for a in source.ancestors(call_ast) if isinstance(a, ast.Try) and any(any(call_ast is x for x in ast.walk(st)) for st in a.body)]
+        contained = False
+        for t in tries:
+            for h in t.handlers:
+                ht = _esc.handler_types(h)
+                if (ht is None or ht & {"Exception", "BaseException"}) and not any(isinstance(x, ast.Raise) for st in h.body for x in ast.walk(st)):
+                    contained = True
+        ctx.ob("C13.R2-progress", g.ast, contained,
+               "every failure of the task generator is caught and counted as a failed attempt" if contained else
+               "the handlers around self.taskGenerator(..) catch %s only: any other exception leaves EngineTaskController before the decision "
+               "block - no retry is used up, the engine is not stopped, and the monitor (which wraps the error, sleeps 5 s and calls the action "
+               "again) repeats the attempt for ever once the producers have finished" % (
+                   ", ".join(sorted({x for t in tries for h in t.handlers for x in (_esc.handler_types(h) or {"everything"})})) or "nothing"),
+               construct="self.taskGenerator(..) <- except Exception (no re-raise)")
+
     # ---------------- R3 ------------------------------------------------------------------------------
     consume_tests = match.test_nodes(cfg, lambda t: match.polarity(t, lambda e: source.src(e) == "self.consume"))
     newout_names = {t.id for n in source.walk_own(etc) if isinstance(n, ast.Assign) and isinstance(n.value, ast.Call)
